@@ -10,6 +10,7 @@ import (
 	"fmt"
 	"io/fs"
 	"math/rand"
+	"net/url"
 	"os"
 	"path/filepath"
 	"sort"
@@ -27,6 +28,17 @@ type bundledInput struct {
 	Damage   *damage `json:"damage,omitempty"`
 	URL      string  `json:"url,omitempty"` // "" = asset list / cache files
 }
+
+// genPath is the asset path of a structured layout inside the scratch vod root.
+func genPath(l layout) string {
+	if l.Asset != "x/"+l.Note {
+		return "gen/" + strings.TrimPrefix(l.Asset, "x/")
+	}
+	return "gen/" + l.Note
+}
+
+// esc escapes a slash-separated path for use in a request URL (non-ASCII names, spaces).
+func esc(p string) string { return (&url.URL{Path: p}).EscapedPath() }
 
 func copyTree(src, dst string) error {
 	return filepath.WalkDir(src, func(p string, d fs.DirEntry, err error) error {
@@ -48,12 +60,14 @@ func copyTree(src, dst string) error {
 // generatedOnDisk: layouts (by note) that are rendered into the scratch vod root next to the bundled assets.
 var generatedOnDisk = []string{"plain-av", "loop-whole-ms-90k", "loop-not-whole-ms-90k", "loop-1001-odd", "loop-one-tick-off",
 	"two-video-same", "two-video-differ", "two-video-differ-1ms", "time-plain", "thumbs", "gap-in-files", "two-mpds", "video-text", "text-shorter",
+	"id-cyrillic", "id-space", "asset-path-cyrillic", "hi-ts-10mhz-equal", "hi-ts-9mhz-below-1us", "hi-ts-10mhz-one-tick-text",
 	"time-audio-plain", "time-audio-gap", "time-audio-overlap", "time-audio-second-later", "number-video-time-audio-gap"}
 
 // expected admission of the generated layouts (property text: not a whole number of ms, or
 // representations of the reference type disagree => left out)
 var expectLeftOut = map[string]bool{"loop-not-whole-ms-90k": true, "loop-1001-odd": true, "loop-one-tick-off": true,
 	"two-video-differ": true, "two-video-differ-1ms": true, "text-shorter": true,
+	"hi-ts-9mhz-below-1us": true, "hi-ts-10mhz-one-tick-text": true,
 	"time-audio-gap": true, "time-audio-overlap": true, "time-audio-second-later": true, "number-video-time-audio-gap": true}
 
 func setupVod(vod string) error {
@@ -75,7 +89,7 @@ func setupVod(vod string) error {
 		if !want[l.Note] {
 			continue
 		}
-		l.Asset = "gen/" + l.Note
+		l.Asset = genPath(l)
 		for k, v := range l.render() {
 			p := filepath.Join(vod, k)
 			if err := os.MkdirAll(filepath.Dir(p), 0o755); err != nil {
@@ -148,7 +162,7 @@ func requestList(assets []app.VerifC15Asset, thorough bool) []string {
 		for _, mpd := range a.MPDs {
 			for _, now := range nows {
 				for _, pre := range []string{"", "segtimeline_1/", "segtimelinenr_1/"} {
-					urls = append(urls, fmt.Sprintf("/livesim2/%s%s/%s?nowMS=%d", pre, a.AssetPath, mpd, now))
+					urls = append(urls, fmt.Sprintf("/livesim2/%s%s/%s?nowMS=%d", pre, esc(a.AssetPath), esc(mpd), now))
 				}
 			}
 		}
@@ -160,7 +174,7 @@ func requestList(assets []app.VerifC15Asset, thorough bool) []string {
 		}
 		for _, r := range a.Reps {
 			if r.InitURI != "" {
-				urls = append(urls, fmt.Sprintf("/livesim2/%s/%s", a.AssetPath, r.InitURI))
+				urls = append(urls, fmt.Sprintf("/livesim2/%s/%s", esc(a.AssetPath), esc(r.InitURI)))
 			}
 			n := int64(len(r.Segments))
 			if n == 0 || r.MediaTimescale == 0 {
@@ -189,7 +203,7 @@ func requestList(assets []app.VerifC15Asset, thorough bool) []string {
 							continue
 						}
 						u := strings.ReplaceAll(r.MediaURI, "$Number$", strconv.FormatInt(nr, 10))
-						urls = append(urls, fmt.Sprintf("/livesim2/%s/%s?nowMS=%d", a.AssetPath, u, now))
+						urls = append(urls, fmt.Sprintf("/livesim2/%s/%s?nowMS=%d", esc(a.AssetPath), esc(u), now))
 					}
 				} else {
 					// $Time$: times of the segments that end before now
@@ -202,7 +216,7 @@ func requestList(assets []app.VerifC15Asset, thorough bool) []string {
 							if w*wrapTicks+int64(r.Segments[i].EndTime) <= nowTicks {
 								t := w*wrapTicks + int64(r.Segments[i].StartTime)
 								u := strings.ReplaceAll(r.MediaURI, "$Time$", strconv.FormatInt(t, 10))
-								urls = append(urls, fmt.Sprintf("/livesim2/segtimeline_1/%s/%s?nowMS=%d", a.AssetPath, u, now))
+								urls = append(urls, fmt.Sprintf("/livesim2/segtimeline_1/%s/%s?nowMS=%d", esc(a.AssetPath), esc(u), now))
 								cnt++
 							}
 						}
@@ -335,11 +349,17 @@ func runBundled(c *lib.Ctx, scratch string, rng *rand.Rand) (int, error) {
 		served[a.AssetPath] = true
 	}
 	for _, n := range generatedOnDisk {
-		in := bundledInput{Part: "bundled", Instance: "scan", URL: "gen/" + n}
-		if expectLeftOut[n] && served["gen/"+n] {
+		gp := "gen/" + n
+		for _, l := range structuredLayouts() {
+			if l.Note == n {
+				gp = genPath(l)
+			}
+		}
+		in := bundledInput{Part: "bundled", Instance: "scan", URL: gp}
+		if expectLeftOut[n] && served[gp] {
 			c.Fail("B:scan:gen/"+n, "admission:served-although-"+n, "generated asset gen/"+n+" must be left out but is served", in)
 		}
-		if !expectLeftOut[n] && !served["gen/"+n] {
+		if !expectLeftOut[n] && !served[gp] {
 			c.Fail("B:scan:gen/"+n, "admission:left-out-although-"+n, "generated asset gen/"+n+" is well-formed but not served", in)
 		}
 	}
@@ -579,7 +599,7 @@ func (e *bundledEnv) checkTiming() {
 		now := 10*int64(a.LoopDurMS) + 1
 		last := now/segMS - 1
 		get := func(r *app.VerifC15Rep, nr int64) (uint64, int) {
-			u := fmt.Sprintf("/livesim2/%s/%s?nowMS=%d", a.AssetPath, strings.ReplaceAll(r.MediaURI, "$Number$", strconv.FormatInt(nr, 10)), now)
+			u := fmt.Sprintf("/livesim2/%s/%s?nowMS=%d", esc(a.AssetPath), esc(strings.ReplaceAll(r.MediaURI, "$Number$", strconv.FormatInt(nr, 10))), now)
 			resp := e.scan.GetRaw(u)
 			e.n++
 			if resp.Status != 200 {
@@ -595,6 +615,9 @@ func (e *bundledEnv) checkTiming() {
 			r := &a.Reps[i]
 			if r.ID == ref.ID || r.ContentType == "audio" || r.ContentType == "image" || !strings.Contains(r.MediaURI, "$Number$") || r.MediaTimescale == 0 {
 				continue
+			}
+			if len(r.Segments) != len(ref.Segments) {
+				continue // another segment grid: numbers do not correspond (equal loop duration is the admission clause)
 			}
 			e.c.Count("B:timing-rep:" + r.ContentType)
 			for nr := last - int64(len(ref.Segments)) - 2; nr <= last; nr++ {
